@@ -99,6 +99,45 @@ fn dump(mfs: &[MetricFamily]) -> String {
     o
 }
 
+/// The same exposition once more, through the older `get_*` accessor family (both data models offer it,
+/// the plain one as deprecated aliases): a family read through either set of getters is the same family.
+#[allow(deprecated)]
+fn dump_legacy(mfs: &[MetricFamily]) -> String {
+    let mut o = String::new();
+    for mf in mfs {
+        o.push_str("f|");
+        esc(mf.get_name(), &mut o);
+        o.push('|');
+        esc(mf.get_help(), &mut o);
+        o.push('|');
+        for m in mf.get_metric() {
+            o.push('[');
+            for l in m.get_label() {
+                esc(l.get_name(), &mut o);
+                o.push('=');
+                esc(l.get_value(), &mut o);
+                o.push(',');
+            }
+            o.push(']');
+            if mf.get_field_type() == MetricType::HISTOGRAM {
+                let h = m.get_histogram();
+                for b in h.get_bucket() {
+                    let _ = write!(o, "{:016x}={},", b.get_upper_bound().to_bits(), b.get_cumulative_count());
+                }
+            }
+            if mf.get_field_type() == MetricType::SUMMARY {
+                let q = m.get_summary();
+                let _ = write!(o, "s{}:{:016x}:", q.get_sample_count(), q.get_sample_sum().to_bits());
+                for q in q.get_quantile() {
+                    let _ = write!(o, "{:016x}={:016x},", q.get_quantile().to_bits(), q.get_value().to_bits());
+                }
+            }
+            let _ = write!(o, "@{};", m.get_timestamp_ms());
+        }
+    }
+    o
+}
+
 fn text_of(mfs: &[MetricFamily]) -> String {
     let mut out = String::new();
     match TextEncoder::new().encode_to_string(mfs) {
@@ -205,6 +244,7 @@ fn scenario(seed: u64, case: u64, out: &mut Vec<String>) {
     let fpool = pools::float_pool();
     let mut emit = |what: &str, mfs: &[MetricFamily]| {
         out.push(format!("case {} {} D {}", case, what, dump(mfs)));
+        out.push(format!("case {} {} L {}", case, what, dump_legacy(mfs)));
         out.push(format!("case {} {} T {}", case, what, text_of(mfs)));
     };
     // registry with / without prefix and common labels
